@@ -636,7 +636,7 @@ func c11Field(m map[string]any, path ...string) any {
 
 func TestVerif_C11_AuditFormat(t *testing.T) {
 	rec := verifx.NewRecorder("C11", "audit-format",
-		"logical.LogInput with generated request/response data trees (maps, slices, typed maps/slices, struct values, nesting <= 5; string, []byte, int, int64, uint64, float, json.Number, bool, nil, time, empty leaves), raw-body responses (http_raw_body as []byte and as string), wrapped responses, request and response Auth blocks, secret lease ids, request token/accessor; a fresh 24-char base62 canary (one string leaf in seven: a 16-digit decimal one, optionally negative) in every string/[]byte leaf and every token/accessor field; config: hmac_accessor on/off, non-HMAC request/response keys from the top-level keys, elide_list_responses on/off, raw off; FormatRequest and FormatResponse with the JSON writer and a real salt; non-trivial = a canary at depth >= 2 or inside a slice, or a raw-body / wrap-info / auth case")
+		"logical.LogInput with generated request/response data trees (maps, slices, typed maps/slices, struct values, nesting <= 5; string, []byte, int, int64, uint64, float, json.Number, bool, nil, time, empty leaves), raw-body responses (http_raw_body as []byte and as string), wrapped responses, request and response Auth blocks, secret lease ids, request token/accessor; a fresh 24-char base62 canary (one string leaf in seven: a 16-digit decimal one, optionally negative) in every string/[]byte leaf and every token/accessor field; each token/accessor field of the request and of the Auth blocks is on its own present or empty (no token on unauthenticated paths, an Auth known by its accessor only, a token without accessor); config: hmac_accessor on/off, non-HMAC request/response keys from the top-level keys, elide_list_responses on/off, raw off; FormatRequest and FormatResponse with the JSON writer and a real salt; non-trivial = a canary at depth >= 2 or inside a slice, or a raw-body / wrap-info / auth case")
 	defer rec.Flush()
 
 	const saltValue = "c1d1ab0e-5a17-4e1f-9e57-verif-c11-salt"
@@ -668,12 +668,26 @@ func TestVerif_C11_AuditFormat(t *testing.T) {
 		c.op = rapid.SampledFrom([]logical.Operation{logical.ReadOperation, logical.UpdateOperation, logical.CreateOperation, logical.ListOperation,
 			logical.ListOperation, logical.DeleteOperation, logical.PatchOperation, logical.ScanOperation}).Draw(rt, "op")
 
+		// Every token / accessor field of a request or of an Auth block is present or empty on its own: requests
+		// to unauthenticated paths carry no token, an Auth can describe a token by its accessor only (the token
+		// store answers auth/token/renew-accessor with the accessor and a blanked client token), a request can
+		// carry a token whose accessor was not looked up. An empty field holds no secret and plants no canary.
+		// (The fields of a finished wrapping - token, accessor - are always set by the core.)
+		absent := func(label string) bool {
+			return !strings.HasPrefix(label, "response.wrap_info.") && rapid.IntRange(0, 3).Draw(rt, label+"-absent") == 0
+		}
 		token := func(label string) string {
+			if absent(label) {
+				return ""
+			}
 			core := g.canaryCore()
 			g.canaries = append(g.canaries, &c11Canary{core: core, forms: []string{core}, where: label, field: label, allowed: false})
 			return rapid.SampledFrom([]string{"", "", "hvs.", "s."}).Draw(rt, label+"-prefix") + core
 		}
 		accessor := func(label string) string {
+			if absent(label) {
+				return ""
+			}
 			core := g.canaryCore()
 			g.canaries = append(g.canaries, &c11Canary{core: core, forms: []string{core}, where: label, field: label, allowed: !c.cfg.HMACAccessor})
 			return core
@@ -851,6 +865,9 @@ func TestVerif_C11_AuditFormat(t *testing.T) {
 			class = "request-auth"
 		}
 		for name, on := range map[string]bool{"canary-depth>=2": deep, "canary-in-slice": sliced, "exempt-key-used": exemptUsed, "bytes-leaf": bytesLeaf,
+			"auth-accessor-without-token": (c.hasAuth && c.authTok == "" && c.authAcc != "") || (c.hasResp && c.respAuth && c.respTok == "" && c.respAcc != ""),
+			"auth-token-without-accessor": (c.hasAuth && c.authTok != "" && c.authAcc == "") || (c.hasResp && c.respAuth && c.respTok != "" && c.respAcc == ""),
+			"request-without-token":       c.reqTok == "", "request-accessor-without-token": c.reqTok == "" && c.reqAcc != "",
 			"hmac-accessor-on": c.cfg.HMACAccessor, "elision-applied": elide && c.hasResp && c.respData != nil, "secret-lease": c.hasResp && c.secret, "no-response": !c.hasResp} {
 			if on {
 				rec.Class(name, 1)
@@ -862,7 +879,7 @@ func TestVerif_C11_AuditFormat(t *testing.T) {
 			return map[string]any{"class": class, "hmac_accessor": c.cfg.HMACAccessor, "elide_list_responses": c.cfg.ElideListResponses, "operation": string(c.op),
 				"canaries": len(g.canaries), "input": verifx.Trunc(string(b), 1500)}
 		}
-		rec.Case(class, nontrivial, verifx.Digest("c11", class, c.cfg.HMACAccessor, c.cfg.ElideListResponses, c.op, fmt.Sprint(in.Request.Data), fmt.Sprint(ref.Response), c.reqExempt, c.respExempt, c.reqTok, c.reqAcc, c.authTok, c.respTok, c.wrapTok), sample)
+		rec.Case(class, nontrivial, verifx.Digest("c11", class, c.cfg.HMACAccessor, c.cfg.ElideListResponses, c.op, fmt.Sprint(in.Request.Data), fmt.Sprint(ref.Response), c.reqExempt, c.respExempt, c.reqTok, c.reqAcc, c.authTok, c.authAcc, c.respTok, c.respAcc, c.wrapTok), sample)
 
 		detail := func(out []byte) map[string]any {
 			s := sample().(map[string]any)
